@@ -8,6 +8,7 @@
 import SeataModel.AT.World
 import SeataModel.Lemmas.Store
 import SeataModel.AT.PairImages
+import SeataModel.AT.InsertRoute
 namespace Seata.Props.C01
 open Seata Seata.DB Seata.AT Seata.Lemmas.Store Seata.AT.PairImages
 
@@ -296,5 +297,82 @@ theorem C01_paired_by_table {α : Type} (before after : List (Image α))
 
 example : pairByTable [("t1", 1), ("t2", 2)] [("t2", 20), ("t1", 10)] = [("t1", 10), ("t2", 20)] := by decide
 
+
+/-! ### which executor records an INSERT-like statement (AT/InsertRoute.lean) -/
+section insertRoute
+open Seata.AT.InsertRoute
+
+/-- a statement that goes to the insert-on-duplicate executor has every one of its rows identifiable: the image
+    queries, which look rows up by the unique values they give, find all of them -/
+theorem C01_upsert_route_finds_every_row (v : Verb) (rows : List RowInfo) (h : route v rows = .upsert) :
+    ∀ r ∈ rows, identifiable r = true := by
+  intro r hr
+  cases v <;> simp only [route] at h
+  · split at h <;> simp at h
+  all_goals
+    first
+    | (split at h
+       · split at h <;> simp at h
+       · split at h
+         · rename_i ha; exact (List.all_eq_true.mp ha) r hr
+         · simp at h)
+    | (split at h
+       · rename_i ha
+         simp only [Bool.and_eq_true] at ha
+         exact (List.all_eq_true.mp ha.1) r hr
+       · simp at h)
+
+/-- an INSERT IGNORE / REPLACE that goes to the plain insert executor can meet no row that exists: none of its
+    rows gives the value of a unique index -/
+theorem C01_plain_route_meets_nothing (v : Verb) (rows : List RowInfo) (hv : v = .ignore ∨ v = .replace)
+    (h : route v rows = .plain) : ∀ r ∈ rows, identifiable r = false := by
+  intro r hr
+  rcases hv with hv | hv <;> subst hv <;> simp only [route] at h
+  all_goals
+    split at h
+    · rename_i hn
+      have := (List.all_eq_true.mp hn) r hr
+      simpa using this
+    · split at h <;> simp at h
+
+/-- the keys of the rows a plain executor records are all given by the statement, or all assigned by the
+    database (and then reported by the result): never some of each -/
+theorem C01_plain_route_keys_uniform (v : Verb) (rows : List RowInfo) (h : route v rows = .plain) :
+    (∀ r ∈ rows, r.keyGiven = true) ∨ (∀ r ∈ rows, r.keyGiven = false) := by
+  have key : (allB (·.keyGiven) rows || noneB (·.keyGiven) rows) = true →
+      (∀ r ∈ rows, r.keyGiven = true) ∨ (∀ r ∈ rows, r.keyGiven = false) := by
+    intro hk
+    simp only [Bool.or_eq_true] at hk
+    rcases hk with hk | hk
+    · exact Or.inl (fun r hr => (List.all_eq_true.mp hk) r hr)
+    · exact Or.inr (fun r hr => by simpa using (List.all_eq_true.mp hk) r hr)
+  cases v <;> simp only [route] at h
+  · split at h
+    · rename_i hk; exact key hk
+    · simp at h
+  · split at h
+    · split at h
+      · rename_i hk; exact key hk
+      · simp at h
+    · split at h <;> simp at h
+  · split at h
+    · split at h
+      · rename_i hk; exact key hk
+      · simp at h
+    · split at h <;> simp at h
+  · split at h <;> simp at h
+
+/-- the statements of the review rounds, before and after: REPLACE INTO t (name, age) on a table with a surrogate
+    key and a UNIQUE name; INSERT ... VALUES (NULL, ..), (100, ..); REPLACE INTO t (age) -/
+theorem C01_route_examples :
+    route .replace [{ keyGiven := false, otherUniqueGiven := true }] = .upsert ∧
+    routeBeforeFix .replace [{ keyGiven := false, otherUniqueGiven := true }] = .plain ∧
+    route .insert [{ keyGiven := false, otherUniqueGiven := false }, { keyGiven := true, otherUniqueGiven := false }] = .refuse ∧
+    routeBeforeFix .insert [{ keyGiven := false, otherUniqueGiven := false }, { keyGiven := true, otherUniqueGiven := false }] = .plain ∧
+    route .replace [{ keyGiven := false, otherUniqueGiven := false }] = .plain ∧
+    route .ignore [{ keyGiven := false, otherUniqueGiven := true }, { keyGiven := false, otherUniqueGiven := false }] = .refuse := by
+  decide
+
+end insertRoute
 
 end Seata.Props.C01
